@@ -102,6 +102,42 @@ def main():
                                         fail("reported-residual-is-not-the-residual-at-the-returned-point", reported=prec, residual=resid, **info)
                                 if not has_root and success:
                                     fail("success-on-a-system-without-a-root[%s]" % solver, residual=resid, **info)
+    # starts on a critical point of one equation (singular Jacobian at the start) and on stationary points of ||F||^2 that are not roots:
+    # no solver may present them as solutions (an exception is a reported failure)
+    def mixed(x):
+        x = np.asarray(x)
+        f = x ** 2 - 2.0
+        f.reshape(-1)[0] = x.reshape(-1)[0] ** 2 + 1.0          # first equation has no real root, zero derivative at 0
+        return f
+
+    def mixed_jac(x):
+        return np.diag(2.0 * np.asarray(x).reshape(-1))
+    even = [("x^2+1", lambda x: np.asarray(x) ** 2 + 1.0, lambda x: np.diag(2.0 * np.asarray(x).reshape(-1))),
+            ("cosh", lambda x: np.cosh(np.asarray(x)), lambda x: np.diag(np.sinh(np.asarray(x)).reshape(-1)))]
+    for dtype in (np.float64, np.longdouble):
+        tol = 32 * np.finfo(dtype).eps * 1e3
+        for n in (2, 3):
+            x_crit = np.full(n, 3.0, dtype=dtype)
+            x_crit[0] = 0.0
+            trials = [("critical-point-of-one-equation", mixed, mixed_jac, x_crit)] + [("stationary-non-root[%s]" % nm, F_, J_, np.zeros(n, dtype=dtype)) for nm, F_, J_ in even]
+            for nm, F_, J_, x0 in trials:
+                for with_jac in (True, False):
+                    for solver in ("nonlinear_roots", "hybrj", "newtontrustregion"):
+                        info = dict(system=nm, n=n, dtype=np.dtype(dtype).name, jac=with_jac, solver=solver)
+                        cases[0] += 1
+                        try:
+                            if solver == "nonlinear_roots":
+                                x, res = O.nonlinear_roots(F_, x0, jac=J_ if with_jac else None, tol=tol)
+                            elif solver == "hybrj":
+                                x, res = O.hybrj(F_, x0, J_ if with_jac else None, tol=tol)
+                            else:
+                                x, res = O.newtontrustregion(F_, x0, jac=J_ if with_jac else None, tol=tol)
+                        except Exception:
+                            continue
+                        if bool(res[0]):
+                            resid = float(np.linalg.norm(np.asarray(F_(x), dtype=np.longdouble)))
+                            if not (resid <= 1e3 * tol * (n + 1)):
+                                fail("success-on-a-system-without-a-root[%s]" % solver, residual=resid, **info)
     json.dump(dict(bound="8 smooth systems x n in %s x shapes x float64/longdouble x 3 starts x with/without Jacobian x 3 solvers" % (list(dims),), cases=cases[0], failures=failures), sys.stdout)
 
 
